@@ -1547,7 +1547,9 @@ func (c *compiler) tupleOrList(op vm.OpCode, ctx ast.ExprContext, elts []ast.Exp
 				}
 				c.OpArg(vm.UNPACK_EX, uint32((i + ((n - i - 1) << 8))))
 				seen_star = true
-				// FIXME Overwrite the starred element
+				// Compile the starred element's value as the target -
+				// in a copy of the list: the ast must not be modified
+				elts = append([]ast.Expr(nil), elts...)
 				elts[i] = starred.Value
 			} else if isStarred {
 				c.panicSyntaxErrorf(elt, "two starred expressions in assignment")
